@@ -564,3 +564,230 @@ Proof.
       intro X; discriminate X.
     + inversion Hrun; subst. rewrite after_nil. repeat split; auto; try discriminate; try apply nloc_nil.
 Qed.
+
+(* ------------------------------------------------------------------ stepping the invariants over a segment *)
+Lemma SimN_after_same A ev p n : (forall r, graph_word (p ++ r) ev = []) -> SimN A p n -> SimN (after A ev) p n.
+Proof. intros H. apply SimN_ext. intro r. symmetry. apply after_same; auto. Qed.
+
+Lemma SimN_after_app A a b p n : SimN (after (after A a) b) p n <-> SimN (after A (a ++ b)) p n.
+Proof. split; apply SimN_ext; intro r; rewrite after_app; reflexivity. Qed.
+
+Lemma SimL_after_app A a b gp i l : SimL (after (after A a) b) gp i l <-> SimL (after A (a ++ b)) gp i l.
+Proof. split; apply SimL_ext; intros j r _; rewrite after_app; reflexivity. Qed.
+
+Lemma quiet_after_app A a b p : quiet (after (after A a) b) p <-> quiet (after A (a ++ b)) p.
+Proof. split; apply quiet_ext; intro r; rewrite after_app; reflexivity. Qed.
+
+Lemma SimL_after_same A ev gp i l :
+  (forall j r, i <= j -> graph_word (gp ++ j :: r) ev = []) -> SimL A gp i l -> SimL (after A ev) gp i l.
+Proof. intros H. apply SimL_ext. intros j r Hj. symmetry. apply after_same; auto. Qed.
+
+(* words of single events / sub-operations at regions that are not theirs *)
+Lemma gw_node_ev_region k t (gp : path) i n j r :
+  is_graph_kind k = false -> graph_word (gp ++ j :: r) [Ev k t (gp ++ [i]) n] = [].
+Proof. intros Hk. apply gw_node_ev_other; auto. apply region_neq. Qed.
+
+Lemma gw_graph_ev_region k t (gp : path) n j r :
+  is_graph_kind k = true -> graph_word (gp ++ j :: r) [Ev k t gp n] = [].
+Proof.
+  intros Hk. rewrite gw_graph_ev; auto. rewrite path_eqb_neq; auto.
+  intro H. symmetry in H. revert H. apply region_neq.
+Qed.
+
+Lemma nloc_region gp i hk ev j r : nloc gp i hk ev -> i <> j -> graph_word (gp ++ j :: r) ev = [].
+Proof.
+  intros (_ & H & _) Hij. apply H.
+  - intro Hp. apply prefix_sibling in Hp. congruence.
+  - apply region_neq.
+Qed.
+
+Lemma gloc_region gp lo hi ev j r : gloc gp lo hi ev -> (j < lo \/ hi <= j) -> graph_word (gp ++ j :: r) ev = [].
+Proof.
+  intros [_ H] Hj. apply H.
+  - apply region_neq.
+  - intros k Hk Hp. apply prefix_sibling in Hp. lia.
+Qed.
+
+Lemma app_snoc_region (gp : path) j r : (gp ++ [j]) ++ r = gp ++ j :: r.
+Proof. rewrite <- app_assoc. reflexivity. Qed.
+
+Lemma opt_ev_region {X} (o : option X) k t (gp : path) i n j r :
+  is_graph_kind k = false -> graph_word (gp ++ j :: r) (opt_ev o (Ev k t (gp ++ [i]) n)) = [].
+Proof. intro Hk. destruct o; simpl; auto. apply gw_node_ev_region; auto. Qed.
+
+(* the word of graph gp itself for one node event *)
+Lemma gw_node_self k t gp i n : is_graph_kind k = false -> graph_word gp [Ev k t (gp ++ [i]) n] = [SN k i].
+Proof. intro Hk. rewrite gw_node_ev; auto. rewrite path_eqb_refl. reflexivity. Qed.
+
+Lemma gw_graph_self k t gp n : is_graph_kind k = true -> graph_word gp [Ev k t gp n] = [SG k].
+Proof. intro Hk. rewrite gw_graph_ev; auto. rewrite path_eqb_refl. reflexivity. Qed.
+
+Lemma after_one A e gq : after A [e] gq = arun (A gq) (graph_word gq [e]).
+Proof. reflexivity. Qed.
+
+(* ------------------------------------------------------------------ start *)
+Definition start_spec (start1 : path -> Z -> node -> nres) (c : node) : Prop :=
+  forall gp i t A c' ev f,
+    clean c = true -> quiet A (gp ++ [i]) ->
+    start1 (gp ++ [i]) t c = (c', ev, f) ->
+    nloc gp i HS ev /\ SimN (after A ev) (gp ++ [i]) c' /\
+    node_started c' = negb (is_some f).
+
+Definition start_post (A' : path -> ast) (gp : path) (i n : nat) (l' : list node)
+           (fr : option (failure * bool)) : Prop :=
+  match fr with
+  | None => A' gp = AStarting (i + n) /\ forallb node_started l' = true
+  | Some (_, false) => (exists m, A' gp = ARoll m i) /\ forallb node_stopped l' = true
+  | Some (_, true) => exists m c, i <= c /\ A' gp = ARollAborted m c /\
+                      (c = i -> forallb node_stopped l' = true) /\
+                      (i < c -> forallb node_stopped l' = false)
+  end.
+
+Lemma arun_hook a hk i w a' :
+  (w = [] \/ w = [SN hk i]) -> astep a (SN hk i) = a' -> arun a w = a \/ arun a w = a'.
+Proof. intros [->| ->] H; simpl; auto. Qed.
+
+Lemma quiet_region_after A ev gp j : (forall r, graph_word (gp ++ j :: r) ev = []) -> quiet A (gp ++ [j]) -> quiet (after A ev) (gp ++ [j]).
+Proof. intros H. apply quiet_after_word. intro r. rewrite app_snoc_region. apply H. Qed.
+
+Lemma SimN_region_after A ev gp j n : (forall r, graph_word (gp ++ j :: r) ev = []) -> SimN A (gp ++ [j]) n -> SimN (after A ev) (gp ++ [j]) n.
+Proof. intros H. apply SimN_after_same. intro r. rewrite app_snoc_region. apply H. Qed.
+
+Lemma clean_SimL A gp l : forall i,
+  forallb clean l = true -> (forall j, i <= j -> quiet A (gp ++ [j])) -> SimL A gp i l.
+Proof.
+  unfold SimL. induction l as [|c r IH]; simpl; auto. intros i Hc Hq.
+  apply andb_prop in Hc as [H1 H2]. split.
+  - apply clean_quiet_SimN; auto.
+  - apply IH; auto. intros j Hj. apply Hq. lia.
+Qed.
+
+Lemma clean_all_stopped l : forallb clean l = true -> forallb node_stopped l = true.
+Proof. apply forallb_impl. apply clean_stopped. Qed.
+
+Lemma start_loop_spec start1 stop1 root gp t :
+  (forall c, stop_spec stop1 c) ->
+  forall l i A l' ev fr,
+  Forall (start_spec start1) l ->
+  forallb clean l = true -> (forall j, i <= j -> quiet A (gp ++ [j])) -> A gp = AStarting i ->
+  start_loop start1 stop1 root gp t i l = (l', ev, fr) ->
+  gloc gp i (i + length l) ev /\ length l' = length l /\ SimL (after A ev) gp i l' /\
+  start_post (after A ev) gp i (length l) l' fr.
+Proof.
+  intros Hstop. induction l as [|c r IH]; intros i A l' ev fr Hspec Hcl Hq HA Hrun;
+    cbn [start_loop length forallb] in *.
+  - inversion Hrun; subst. rewrite after_nil. repeat split; auto; try apply gloc_nil.
+    rewrite Nat.add_0_r. exact HA.
+  - apply andb_prop in Hcl as [Hclc Hclr]. inversion Hspec as [|? ? Hc Hr]; subst.
+    destruct (start1 (gp ++ [i]) t c) as [[c1 ev1] f1] eqn:E1.
+    set (p := gp ++ [i]) in *.
+    set (A0 := after A [Ev BSN t p 0]).
+    assert (HA0 : A0 gp = AInStart i false).
+    { unfold A0. rewrite after_one. unfold p. rewrite gw_node_self by auto. rewrite HA. aut. }
+    assert (Hq0 : forall j, i <= j -> quiet A0 (gp ++ [j])).
+    { intros j Hj. apply quiet_region_after; auto. intro s. apply gw_node_ev_region; auto. }
+    destruct (Hc gp i t A0 c1 ev1 f1 Hclc (Hq0 i (le_n i)) E1) as (N1 & S1 & St1).
+    set (A1 := after A0 ev1) in *.
+    assert (HA1 : exists h, A1 gp = AInStart i h).
+    { unfold A1, after. rewrite HA0. destruct N1 as (_ & _ & [-> | ->]); simpl; rewrite ?Nat.eqb_refl; eauto. }
+    destruct HA1 as [h HA1].
+    assert (Hq1 : forall j, i < j -> quiet A1 (gp ++ [j])).
+    { intros j Hj. apply quiet_region_after; [|apply Hq0; lia]. intro s. eapply nloc_region; eauto. lia. }
+    assert (G1 : gloc gp i (i + S (length r)) ([Ev BSN t p 0] ++ ev1)).
+    { apply gloc_app; [apply gloc_node_ev; auto|]. eapply nloc_gloc; [|exact N1]. lia. }
+    destruct f1 as [f1|].
+    + (* the start of node i fails *)
+      inversion Hrun; subst; clear Hrun.
+      set (A2 := after A1 [Ev SNF t p 0]).
+      assert (Heq : forall q, after A (Ev BSN t p 0 :: ev1 ++ [Ev SNF t p 0]) q = A2 q).
+      { intro q. rewrite after_cons, after_app. reflexivity. }
+      split; [|split; [|split]].
+      * change (gloc gp i (i + S (length r)) ([Ev BSN t p 0] ++ ev1 ++ [Ev SNF t p 0])).
+        rewrite app_assoc. apply gloc_app; [exact G1|apply gloc_node_ev; auto].
+      * reflexivity.
+      * eapply SimL_ext; [intros j s _; symmetry; apply Heq|]. split.
+        -- apply SimN_region_after; auto. intro s. apply gw_node_ev_region; auto.
+        -- apply clean_SimL; auto. intros j Hj.
+           apply quiet_region_after; [|apply Hq1; auto]. intro s. apply gw_node_ev_region; auto.
+      * unfold start_post. rewrite Heq. split.
+        -- exists i. unfold A2. rewrite after_one. unfold p. rewrite gw_node_self by auto. rewrite HA1.
+           destruct h; aut.
+        -- cbn [forallb]. unfold node_stopped at 1. rewrite St1. simpl. apply clean_all_stopped; auto.
+    + (* node i started: go on with the rest *)
+      destruct (start_loop start1 stop1 root gp t (S i) r) as [[r' ev2] f2] eqn:E2.
+      set (A2 := after A1 [Ev ASN t p 0]).
+      assert (HA2 : A2 gp = AStarting (S i)).
+      { unfold A2. rewrite after_one. unfold p. rewrite gw_node_self by auto. rewrite HA1. destruct h; aut. }
+      assert (Hq2 : forall j, S i <= j -> quiet A2 (gp ++ [j])).
+      { intros j Hj. apply quiet_region_after; [|apply Hq1; auto]. intro s. apply gw_node_ev_region; auto. }
+      destruct (IH (S i) A2 r' ev2 f2 Hr Hclr Hq2 HA2 E2) as (G2 & L2 & S2 & P2).
+      set (A3 := after A2 ev2) in *.
+      assert (S1c : SimN A3 p c1).
+      { apply SimN_region_after; [intro s; eapply gloc_region; eauto; lia|].
+        apply SimN_region_after; [intro s; apply gw_node_ev_region; auto|]. exact S1. }
+      assert (G3 : gloc gp i (i + S (length r)) ([Ev BSN t p 0] ++ ev1 ++ [Ev ASN t p 0] ++ ev2)).
+      { rewrite app_assoc. apply gloc_app; [exact G1|]. apply gloc_app; [apply gloc_node_ev; auto|].
+        eapply gloc_widen; [| |exact G2]; lia. }
+      assert (Heq3 : forall q, after A ([Ev BSN t p 0] ++ ev1 ++ [Ev ASN t p 0] ++ ev2) q = A3 q).
+      { intro q. rewrite !after_app. reflexivity. }
+      destruct f2 as [[f ab]|].
+      * destruct ab.
+        -- (* the rollback was already cut short further on *)
+           inversion Hrun; subst; clear Hrun.
+           split; [exact G3|]. split; [simpl; lia|]. split.
+           ++ eapply SimL_ext; [intros j s _; symmetry; apply Heq3|]. split; auto.
+           ++ unfold start_post in *. rewrite Heq3. destruct P2 as (m & c0 & Hc0 & HA3 & _ & _).
+              exists m, c0. split; [lia|]. split; [exact HA3|]. split; [lia|].
+              intros _. cbn [forallb]. unfold node_stopped at 1. rewrite St1. reflexivity.
+        -- (* roll this node back *)
+           destruct (stop1 p t c1) as [[c2 ev3] f3] eqn:E3.
+           inversion Hrun; subst; clear Hrun.
+           destruct P2 as [[m HA3] Hst3].
+           set (A4 := after A3 [Ev BPN t p 0]).
+           assert (S4 : SimN A4 p c1).
+           { apply SimN_region_after; auto. intro s. apply gw_node_ev_region; auto. }
+           destruct (Hstop c1 gp i t A4 c2 ev3 f3 S4 E3) as (N3 & S5 & St5 & _ & _).
+           set (A5 := after A4 ev3) in *.
+           set (tl := opt_ev f3 (Ev PNF t p 0) ++ [Ev APN t p 0]).
+           set (A6 := after A5 tl).
+           assert (Heq6 : forall q, after A ([Ev BSN t p 0] ++ ev1 ++ [Ev ASN t p 0] ++ ev2 ++ [Ev BPN t p 0] ++ ev3 ++ tl) q = A6 q).
+           { intro q. rewrite !after_app. reflexivity. }
+           assert (Htl : forall j s, graph_word (gp ++ j :: s) tl = []).
+           { intros j s. unfold tl. rewrite graph_word_app. unfold p.
+             rewrite opt_ev_region by auto. rewrite gw_node_ev_region by auto. reflexivity. }
+           split; [|split; [|split]].
+           ++ change (gloc gp i (i + S (length r))
+                        ([Ev BSN t p 0] ++ ev1 ++ [Ev ASN t p 0] ++ ev2 ++ [Ev BPN t p 0] ++ ev3 ++ tl)).
+              apply gloc_app; [apply gloc_node_ev; auto|].
+              apply gloc_app; [eapply nloc_gloc; [|exact N1]; lia|].
+              apply gloc_app; [apply gloc_node_ev; auto|].
+              apply gloc_app; [eapply gloc_widen; [| |exact G2]; lia|].
+              apply gloc_app; [apply gloc_node_ev; auto|].
+              apply gloc_app; [eapply nloc_gloc; [|exact N3]; lia|].
+              unfold tl. apply gloc_app; [apply gloc_opt_ev; auto|apply gloc_node_ev; auto].
+           ++ simpl; lia.
+           ++ eapply SimL_ext; [intros j s _; symmetry; apply Heq6|]. split.
+              ** unfold A6. apply SimN_region_after; auto.
+              ** unfold A6. apply SimL_after_same; [intros; apply Htl|].
+                 apply SimL_after_same; [intros j s Hj; eapply nloc_region; eauto; lia|].
+                 apply SimL_after_same; [intros j s Hj; apply gw_node_ev_region; auto|]. exact S2.
+           ++ unfold start_post. rewrite Heq6.
+              assert (HA4 : A4 gp = ARollIn m (S i) false false).
+              { unfold A4. rewrite after_one. unfold p. rewrite gw_node_self by auto. rewrite HA3. aut. }
+              assert (HA5 : exists h5, A5 gp = ARollIn m (S i) h5 false).
+              { unfold A5, after. rewrite HA4. destruct N3 as (_ & _ & [-> | ->]); simpl; rewrite ?Nat.eqb_refl; eauto. }
+              destruct HA5 as [h5 HA5].
+              assert (Hall : forallb node_stopped (c2 :: r') = true).
+              { cbn [forallb]. unfold node_stopped at 1. rewrite St5, Hst3. reflexivity. }
+              unfold A6, after. rewrite HA5. unfold tl, p. rewrite graph_word_app.
+              destruct f3 as [f3|]; simpl opt_ev; rewrite ?gw_node_self by auto.
+              ** exists m, i. split; [lia|]. split; [destruct h5; aut|]. split; auto. intro; lia.
+              ** split; auto. exists m. destruct h5; aut.
+      * (* everything started *)
+        inversion Hrun; subst; clear Hrun.
+        split; [exact G3|]. split; [simpl; lia|]. split.
+        -- eapply SimL_ext; [intros j s _; symmetry; apply Heq3|]. split; auto.
+        -- unfold start_post in *. rewrite Heq3. destruct P2 as [HA3 Hst3]. split.
+           ++ rewrite HA3. f_equal. lia.
+           ++ cbn [forallb]. rewrite St1, Hst3. reflexivity.
+Qed.
